@@ -32,6 +32,7 @@ fn main() {
         "C05" => props::c05::run(&mut ctx),
         "C17" => props::c17::run(&mut ctx),
         "C18" => props::c18::run(&mut ctx),
+        "C13" => props::c13::run(&mut ctx),
         _ => { eprintln!("unknown property {prop}"); std::process::exit(2); }
     }
     ctx.finish(out);
